@@ -1398,6 +1398,8 @@ func concreteConv(t_dst, t_src types.Type, x value) value {
 					return float32(x)
 				case types.Float64:
 					return float64(x)
+				case types.UnsafePointer:
+					return unsafe.Pointer(uintptr(x))
 				}
 
 			case float64: // floating point -> numeric?
